@@ -1502,7 +1502,8 @@ impl AllowedRange {
     #[must_use]
     /// Return true if the value is present in the allowed range.
     pub fn contains(&self, value: i64) -> bool {
-        self.min <= value && value < self.max
+        // `max` is exclusive, except that a range that extends to `i64::MAX` has no upper bound.
+        self.min <= value && (value < self.max || self.max == i64::MAX)
     }
 
     /// Returns how far we're outside the allowed range.
